@@ -24,6 +24,47 @@ import (
 
 func init() { runners["crash"] = runCrash }
 
+// tornFS sits under the fault injector: when armed, the next Write applies only a prefix of its bytes and then the power
+// is off (the call never returns) - a torn write inside one file-system operation.
+type tornFS struct {
+	vfs.FS
+	arm    atomic.Int32 // 0 = off; j+1 = tear the next write at position j of tornSteps
+	steps  int
+	frozen func()
+}
+
+func (t *tornFS) wrap(f vfs.File, err error) (vfs.File, error) {
+	if err != nil {
+		return nil, err
+	}
+	return &tornFile{File: f, fs: t}, nil
+}
+func (t *tornFS) Create(name string) (vfs.File, error) { return t.wrap(t.FS.Create(name)) }
+func (t *tornFS) ReuseForWrite(o, n string) (vfs.File, error) {
+	return t.wrap(t.FS.ReuseForWrite(o, n))
+}
+func (t *tornFS) OpenReadWrite(name string, opts ...vfs.OpenOption) (vfs.File, error) {
+	return t.wrap(t.FS.OpenReadWrite(name, opts...))
+}
+
+type tornFile struct {
+	vfs.File
+	fs *tornFS
+}
+
+func (f *tornFile) Write(p []byte) (int, error) {
+	if j := int(f.fs.arm.Load()); j > 0 {
+		n := 0
+		if len(p) > 1 {
+			n = 1 + (len(p)-2)*(j-1)/max(1, f.fs.steps-1) // 1 .. len-1
+		}
+		_, _ = f.File.Write(p[:n])
+		f.fs.frozen()
+		select {}
+	}
+	return f.File.Write(p)
+}
+
 type crashPut struct {
 	id   []byte
 	n    int
@@ -156,9 +197,9 @@ func (o reopenObs) String() string {
 }
 
 func runCrash(o *Out, r *rand.Rand, thorough bool, _ []string) {
-	nHist, maxCuts := 3, 60
+	nHist, maxCuts, tornSteps := 3, 60, 5
 	if thorough {
-		nHist, maxCuts = 25, 400
+		nHist, maxCuts, tornSteps = 25, 400, 9
 	}
 	for h := 0; h < nHist; h++ {
 		// an independent PRNG per history: the number of file-system operations (background compactions) may vary
@@ -190,10 +231,17 @@ func runCrash(o *Out, r *rand.Rand, thorough bool, _ []string) {
 		}
 		// count the mutating file-system operations of the uncut run
 		var total atomic.Int32
+		var opMu sync.Mutex
+		logWrite := map[int]bool{} // which mutating operations are writes to a write-ahead log file
 		{
-			fs := errorfs.Wrap(vfs.NewStrictMem(), errorfs.InjectorFunc(func(op errorfs.Op, _ string) error {
+			fs := errorfs.Wrap(vfs.NewStrictMem(), errorfs.InjectorFunc(func(op errorfs.Op, path string) error {
 				if op.OpKind() == errorfs.OpKindWrite {
-					total.Add(1)
+					k := int(total.Add(1))
+					if op == errorfs.OpFileWrite && strings.HasSuffix(path, ".log") {
+						opMu.Lock()
+						logWrite[k] = true
+						opMu.Unlock()
+					}
 				}
 				return nil
 			}))
@@ -207,13 +255,27 @@ func runCrash(o *Out, r *rand.Rand, thorough bool, _ []string) {
 			cuts = append(cuts, k)
 		}
 		if len(cuts) > maxCuts {
-			// keep the last operations (prune, sync) and a spread of the earlier ones
-			var sel []int
+			// keep the last operations (prune, sync), every write to a write-ahead log (where batches become durable and
+			// where a torn write matters) and a spread of the earlier ones
+			keep := map[int]bool{}
 			step := float64(len(cuts)-10) / float64(maxCuts-10)
 			for i := 0; i < maxCuts-10; i++ {
-				sel = append(sel, cuts[int(float64(i)*step)])
+				keep[cuts[int(float64(i)*step)]] = true
 			}
-			sel = append(sel, cuts[len(cuts)-10:]...)
+			for _, k := range cuts[len(cuts)-10:] {
+				keep[k] = true
+			}
+			opMu.Lock()
+			for k := range logWrite {
+				keep[k] = true
+			}
+			opMu.Unlock()
+			var sel []int
+			for _, k := range cuts {
+				if keep[k] {
+					sel = append(sel, k)
+				}
+			}
 			cuts = sel
 		}
 		for _, k := range cuts {
@@ -245,6 +307,43 @@ func runCrash(o *Out, r *rand.Rand, thorough bool, _ []string) {
 			mem.ResetToSyncedState()
 			drop := reopenOn(mem, node, capMB)
 			o.Case(fmt.Sprintf("crash cut=%d of=%d variant=drop completed=%d", k, K, c), drop.String())
+			// the same cut landing INSIDE the operation: only a prefix of the bytes of a log write reaches the file
+			opMu.Lock()
+			isLog := logWrite[k]
+			opMu.Unlock()
+			if !isLog {
+				continue
+			}
+			for j := 0; j < tornSteps; j++ {
+				mem := vfs.NewStrictMem()
+				frozen := make(chan struct{})
+				var once sync.Once
+				tf := &tornFS{FS: mem, steps: tornSteps, frozen: func() { once.Do(func() { close(frozen) }) }}
+				var count atomic.Int32
+				fs := errorfs.Wrap(tf, errorfs.InjectorFunc(func(op errorfs.Op, path string) error {
+					if op.OpKind() == errorfs.OpKindWrite {
+						n := int(count.Add(1))
+						if n == k && op == errorfs.OpFileWrite && strings.HasSuffix(path, ".log") {
+							tf.arm.Store(int32(j + 1)) // this very write is torn
+						} else if n >= k {
+							once.Do(func() { close(frozen) })
+							select {}
+						}
+					}
+					return nil
+				}))
+				var completed atomic.Int32
+				done := make(chan struct{})
+				go func() { runWorkload(fs, node, capMB, puts, &completed); close(done) }()
+				select {
+				case <-frozen:
+				case <-done:
+				case <-time.After(20 * time.Second):
+				}
+				time.Sleep(2 * time.Millisecond)
+				torn := reopenOn(mem, node, capMB)
+				o.Case(fmt.Sprintf("crash cut=%d of=%d variant=torn%d completed=%d", k, K, j, completed.Load()), torn.String())
+			}
 		}
 	}
 }
